@@ -88,10 +88,21 @@ class Indentation(afmformats.AFMForceDistance):
             self._rating = None
             # Apply preprocessing
             # (This will call `AFMData.reset_data` on self)
-            details = preproc.apply(apret=self,
-                                    identifiers=preprocessing,
-                                    options=options,
-                                    ret_details=ret_details)
+            try:
+                details = preproc.apply(apret=self,
+                                        identifiers=preprocessing,
+                                        options=options,
+                                        ret_details=ret_details)
+            except BaseException:
+                # The request was rejected. Do not remember it as applied
+                # and do not leave half-processed data behind.
+                self.reset_data()
+                fp["preprocessing"] = []
+                fp["preprocessing_options"] = {}
+                self.preprocessing = []
+                self.preprocessing_options = {}
+                self._preprocessing_details = {}
+                raise
             self._preprocessing_details = details
             # Check availability of axes
             for ax in ["x_axis", "y_axis"]:
